@@ -1146,6 +1146,16 @@ class Gen:
         hl = None
         main += self.declarations(sc)
         self.add_array_params()
+        # a parameter may have the name of a DIM SHARED variable: inside the
+        # procedure the name means the parameter
+        shared_scalars = [(n, t) for n, t in sorted(self.shared_vars.items()) if t in '%&!#$']
+        if shared_scalars and self.procs and r.random() < 0.3:
+            n, t = r.choice(shared_scalars)
+            p = r.choice(self.procs)
+            cand = [q for q in p['params'] if not q[2] and q[1] == t
+                    and not (p.get('recursive') and q is p['params'][0])]
+            if cand:
+                r.choice(cand)[0] = n
         if onerr in ('goto_next', 'goto_end', 'goto_resume'):
             hl = self.fresh('hnd')
             main.append({'k': 'onerr', 'mode': 'goto', 'label': hl})
